@@ -60,7 +60,7 @@ CLAUSES = {
         "compress_only_if + not_compressed_passthrough (the first-chunk decision, any header map) + gzip_only_if_accepted (run level, every program: "
         "the gzip writer is called / the transform compresses only if Accept-Encoding mentions gzip) + decoded_per_content_encoding "
         "(clean runs: Content-Encoding gzip on the wire iff the transform compressed); tie only: the Content-Type the client sees is the one the decision used (oracle: C29 decide on the wire headers)",
-    "Vary always includes Accept-Encoding": "vary_on_every_response (run level, every program and request shape incl. error pages / HEAD / 304: every header block write_headers serialises has a Vary line listing Accept-Encoding) + vary_always (every path through transform_first_chunk); tie only: the serialised block = the bytes on the wire outside clean programs",
+    "Vary always includes Accept-Encoding": "vary_on_every_response (run level, every program and request shape incl. error pages / HEAD / 304: every header block write_headers serialises has a Vary line listing Accept-Encoding, and the wire begins with exactly that block) + vary_always (every path through transform_first_chunk)",
     "a Content-Length, when present, equals the encoded body length": "wire_content_length_is_encoded_length (wire level, clean programs: every Content-Length the strict client sees = length of the body on the wire = the transform's output) + cl_equals_encoded_length + cl_dropped_when_streaming (transform level, any header map incl. handler-set Content-Length); tie only: handler-set Content-Length on the wire (C02 framing oracle)",
 }
 PARALLEL = False   # 1-2 ms per case; forking a pool costs more than it saves
